@@ -33,3 +33,83 @@ def tracer_exception(run, err, kind, data, where, report=None):
     else:
         run.fail_input(kind, data, observed=text, what=what)
     return False
+
+
+# --------------------------------------------------------------------------------------------
+# arrays handed out by a path belong to the caller
+HANDED_OUT = ("coordinates", "emitted_direction", "received_direction")
+READ_AFTER = ("path_length", "tof", "emitted_direction", "received_direction", "fresnel", "coordinates", "_points")
+
+
+def _flat(v):
+    import numpy as np
+    if isinstance(v, tuple):
+        return np.concatenate([np.ravel(np.asarray(x, dtype=complex)) for x in v])
+    return np.ravel(np.asarray(v, dtype=complex))
+
+
+def path_values(p, skip, freqs):
+    import numpy as np
+    out = {}
+    with np.errstate(all="ignore"):
+        for k in READ_AFTER:
+            if k == skip or not hasattr(type(p), k):
+                continue
+            try:
+                out[k] = _flat(getattr(p, k))
+            except Exception as e:
+                out[k] = "raises " + type(e).__name__
+        try:
+            out["attenuation"] = _flat(p.attenuation(freqs))
+        except Exception as e:
+            out["attenuation"] = "raises " + type(e).__name__
+    return out
+
+
+def scribble(x):
+    """what plotting code does with returned arrays: flip the depth axis, shift to the first point, blank a column"""
+    import numpy as np
+    parts = list(x) if isinstance(x, tuple) else [x]
+    for j, a in enumerate(parts):
+        if isinstance(a, np.ndarray):
+            if j % 3 == 0:
+                a -= a.flat[0] + 1.0
+            elif j % 3 == 1:
+                a[...] = 0
+            else:
+                a *= -1
+        elif isinstance(a, list):
+            a[:] = [-(v) - 7.0 for v in a]
+
+
+def returned_arrays_oracle(run, make_tracer, data, freqs, which=None):
+    """`coordinates`, `emitted_direction`, `received_direction` handed out by a path are the caller's: after modifying
+    them in place, every quantity of the path that had not been read before equals that of an untouched twin path
+    (1e-12).  (`from_point` / `to_point` are shared with the tracer - finding K19 of C06 - and `solutions` is the tracer's
+    own cached list on the unchanged tree: neither is claimed.)"""
+    import numpy as np
+    try:
+        with np.errstate(all="ignore"):
+            n = len(make_tracer().solutions)
+    except Exception as e:
+        return tracer_exception(run, e, "crash", data, "returned-arrays oracle")
+    idx = range(n) if which is None else [i for i in which if i < n]
+    for i in idx:
+        for name in HANDED_OUT:
+            try:
+                with np.errstate(all="ignore"):
+                    p, q = make_tracer().solutions[i], make_tracer().solutions[i]
+                    scribble(getattr(p, name))
+            except Exception as e:
+                return tracer_exception(run, e, "crash", data, "returned-arrays oracle")
+            a, b = path_values(p, name, freqs), path_values(q, name, freqs)
+            for k in a:
+                same = (a[k] == b[k]) if isinstance(a[k], str) or isinstance(b[k], str) else (
+                    a[k].shape == b[k].shape and np.allclose(a[k], b[k], rtol=1e-12, atol=0, equal_nan=True))
+                if not same:
+                    run.fail_input("returned-arrays", dict(data, solution=i, modified=name, affected=k),
+                                   observed=str(a[k])[:300], expected=str(b[k])[:300],
+                                   what="modifying the array(s) returned by path.%s in place changes path.%s (solution %d)"
+                                        % (name, k, i))
+                    return False
+    return True
